@@ -68,6 +68,94 @@ def requests(values, idents, all_ops=False):
     return out
 
 
+# ---------------------------------------------------------------------- Tempo v1 (round 4)
+TBASE = 2 * 10**7
+T_FROM, T_TO = 1700000000 * 10**9, 1700003600 * 10**9
+QRYN = "h" + b"qryn".hex()
+TEMPO_SITES = {
+    # site of harness sqlinject -> the request the service built, as a row of model/ScansTempo.v (V = the value under test)
+    "tempo.search.val.quoted": lambda V: "(tv1 %%d %s f %d %d (search ((%s TgEq %s) (%s TgNeq %s)) 20 0 0 f))" % (QRYN, T_FROM, T_TO, p17.sx_str("svc"), V, p17.sx_str("x"), p17.sx_str("y")),
+    "tempo.search.val.re": lambda V: "(tv1 %%d %s f %d %d (search ((%s TgRe %s)) 20 0 0 f))" % (QRYN, T_FROM, T_TO, p17.sx_str("svc"), V),
+    "tempo.search.name.quoted": lambda V: "(tv1 %%d %s f %d %d (search ((%s TgEq %s)) 20 0 0 f))" % (QRYN, T_FROM, T_TO, V, p17.sx_str("y")),
+    "tempo.search.val.bare": lambda V: "(tv1 %%d %s f %d %d (search ((%s TgEq %s)) 20 0 0 f))" % (QRYN, T_FROM, T_TO, p17.sx_str("svc"), V),
+    "tempo.values.tag": lambda V: "(tv1 %%d %s f 0 0 (values %s))" % (QRYN, V),
+    "tempo.query.traceid": lambda V: "(tv1 %%d %s f 1 2 (trace %s t))" % (QRYN, V),
+    "tempo.sqlindexquery": lambda V: "(tvi %%d %s t ((%s TgNre %s)) %d %d 5 500 10 t)" % (QRYN, p17.sx_str("k"), V, T_FROM, T_TO),
+}
+
+
+def tempo_rows(sq_cases):
+    """[(row id, data row, sqlinject record, value bytes)]: for every Tempo v1 case of harness sqlinject (first statement) and for its
+    baseline, the request as a term of model/ScansTempo.v.  The value the request means is the case's `want` (for a shaped case: inside
+    the shape, whose bytes are ASCII)."""
+    out, seen_base = [], {}
+    for c in sq_cases:
+        mk = TEMPO_SITES.get(c["site"])
+        if not mk or c.get("stmt") != 0 or not c.get("_base"):
+            continue
+        val, want = bytes.fromhex(c["val"]), bytes.fromhex(c["want"])
+        marker = bytes.fromhex(c["_base"]["marker"])
+        if c.get("shaped"):
+            npre, npost = c["shape"]
+            pre, post = val[:npre], val[len(val) - npost:]
+        else:
+            pre, post = b"", b""
+        bkey = (c["site"], c["_base"]["sql"])
+        if bkey not in seen_base:
+            seen_base[bkey] = TBASE + len(out)
+            out.append((seen_base[bkey], mk(p17.sx_str(pre + marker + post)) % seen_base[bkey], c["_base"], None))
+        i = TBASE + len(out)
+        out.append((i, mk(p17.sx_str(pre + want + post)) % i, c, seen_base[bkey]))
+    return out
+
+
+def tempo_judge(ck, tag, trows, res):
+    mism, notok, notsubst, nst, ncmp = [], [], [], 0, 0
+    by_site = {}
+    for i, row, rec, bi in trows:
+        r = res.get(i)
+        sql = bytes.fromhex(rec["sql"])
+        nst += 1
+        if r is None or r[2] != sql or not r[1]:
+            mism.append((rec, r))
+            continue
+        if not r[0]:
+            notok.append(rec)
+        if bi is None:
+            continue
+        bs = by_site.setdefault(rec["site"], [0, 0])
+        bs[0] += 1
+        b = res.get(bi)
+        if b is None:
+            continue
+        marker, want = bytes.fromhex(rec["_base"]["marker"]), bytes.fromhex(rec["want"])
+        exp = [(k, body.replace(marker, want) if k in ("L", "Q") else body) for k, body in b[3]]
+        ncmp += 1
+        bs[1] += 1
+        if exp != r[3]:
+            notsubst.append(rec)
+    show = lambda rec: "%s %r" % (rec.get("site"), bytes.fromhex(rec.get("val", rec.get("marker", "")))[:60])
+    missing = sorted(set(TEMPO_SITES) - set(by_site))
+    ck.obligation("Tempo v1 (%s): flat(pieces(model/ScansTempo.v tree)) = the SQL the real TempoService / SQLIndexQuery issued, byte for byte, on %d statements (hostile requests and baselines; every Tempo v1 position: %s)"
+                  % (tag, nst, sorted(by_site)), not mism and not missing, "; ".join(show(rec) for rec, _ in mism[:3]) + (" no case for %s" % missing if missing else ""))
+    ck.obligation("Tempo v1 (%s): every tree passes pok (tempo_v1_statements_are_value_independent / request_values_keep_statement_structure apply)" % tag,
+                  not notok, "; ".join(show(rec) for rec in notok[:3]))
+    ck.obligation("Tempo v1 (%s): the segmented text for the hostile request is the marker's with the marker replaced, on %d (request, baseline) pairs" % (tag, ncmp),
+                  not notsubst, "; ".join(show(rec) for rec in notsubst[:3]))
+    if notok or notsubst:
+        rec = (notok or notsubst)[0]
+        ck.violation({"property": "C10", "kind": "Tempo v1: the segmented text of the statement fails pok or is not the marker's text with other values",
+                      "case": {k: v for k, v in rec.items() if not k.startswith("_")}})
+    elif mism:
+        rec, r = mism[0]
+        ck.violation({"property": "C10", "kind": "flat(pieces) of model/ScansTempo.v differs from the SQL of the real Tempo v1 code",
+                      "case": {k: v for k, v in rec.items() if not k.startswith("_")}, "model": r[2].decode("utf8", "replace") if r else None,
+                      "broken": "correspondence model/ScansTempo.v + model/SqlPieces.v vs reader/tempo, reader/service/tempoService.go"}, no_input=True)
+    ck.extra.setdefault("selection_tree_level_tie", {})["tempo_v1_" + tag] = {
+        "statements": nst, "pairs_compared_piecewise": ncmp, "per_site_[cases,compared]": by_site}
+    ck.coverage["evaluations"] += nst
+
+
 def run(ck, sq_cases, tag, values=None):
     vals, idents = list(values or []), list(values or [])
     seen = set()
@@ -138,6 +226,8 @@ def run(ck, sq_cases, tag, values=None):
         fl = flipped(ms)
         if fl is not None:
             lines.append(line(i + FLIP, c, o, fl))
+    trows = tempo_rows(sq_cases) if values is None else []
+    lines += [r for _, r, _, _ in trows]
     data = os.path.join(ck.work, "sel_%s_cases.txt" % tag)
     open(data, "w").write("\n".join(lines) + "\n")
     rc, out = ck.ocaml_eval("c10sel_" + tag, "ExtractC10Sel.v", "c10sel", "let data_file = %s\n" % json.dumps(data), "c10sel_driver.ml")
@@ -150,6 +240,8 @@ def run(ck, sq_cases, tag, values=None):
         if len(p) == 2 and p[0].isdigit() and p[1] != "-":
             okf, same, flat, pcs = p[1].split("/")
             res[int(p[0])] = (okf == "1", same == "1", bytes.fromhex(flat), [(x[0], bytes.fromhex(x[1:])) for x in pcs.split(",") if x])
+    if trows:
+        tempo_judge(ck, tag, trows, res)
     mism, notok, leaked, notsubst = [], [], [], []
     base = {}
     for i, (c, pos, v) in enumerate(reqs):
